@@ -75,11 +75,15 @@ def ops(tier, cfg):
             for f in ("sum", "min", "max", "product") + (("norm",) if fp else ()):
                 if tier == "quick" and n not in (1, W + 1, 2 * W + 3):
                     continue
+                if f == "product" and not fp and cfg.san and n > 8:
+                    continue      # the fill values make the mathematical product leave int32: UBSan would (rightly) blame the input, not the library
                 L.append((f"{f}[{t}|{n}]", t, (n,), t, (n,), t, (1,), f"r(0) = {f}(a);", False, True))
             L.append((f"inner[{t}|{n}]", t, (n,), t, (n,), t, (1,), "r(0) = inner(a,b);", False, False))
         # long vectors: the unrolled blocks of the reduction loops (four / eight vectors per trip) and their remainders
         for n in (8 * W + 3,) if tier == "quick" else (4 * W + 1, 8 * W, 8 * W + 3):
             for f in ("sum", "min", "max", "product") + (("norm",) if fp else ()):
+                if f == "product" and not fp and cfg.san:
+                    continue
                 L.append((f"{f}[{t}|{n}]", t, (n,), t, (n,), t, (1,), f"r(0) = {f}(a);", False, True))
                 L.append((f"{f}_expr[{t}|{n}]", t, (n,), t, (n,), t, (1,), f"r(0) = {f}(a + b);", False, True))
             L.append((f"inner[{t}|{n}]", t, (n,), t, (n,), t, (1,), "r(0) = inner(a,b);", False, False))
